@@ -215,6 +215,9 @@ def gen(rng, **force):
 #     convert() of the same source directory into the same target (with the same or with an EARLIER clustering: another
 #     number of clusters), optionally followed by damage to the exported files (stale / truncated / removed), then the
 #     judged convert(force=True).  What is judged is the final state, against the model of an export into a fresh directory.
+# histories with a non-empty label: drawn only with VT_C13_LABEL_HISTORY=1 until the repair of rename_with_label (branch
+# fix-c13-r5: files of an earlier export with the same label are replaced, not labelled twice) is on /repo main
+LABEL_HISTORY = os.environ.get('VT_C13_LABEL_HISTORY', '') == '1'
 LINK_KINDS = ['abs', 'abs', 'rel', 'chain', 'hard']
 CORRUPT = ['uuids_short', 'uuids_long', 'uuids_junk', 'npy_rows', 'delete_some', 'empty_files']
 
@@ -285,7 +288,7 @@ def set_history(inp, rng, kind='recurate', corrupt=None):
     with an earlier clustering (other number of clusters / no spike_clusters.npy yet), then re-curated.  Only for fresh
     targets, the empty label (see notes: rename_with_label re-labels the files of the earlier export) and kind convert."""
     o = inp['opts']
-    if not inp['target'].startswith('fresh') or inp['label'] or o.get('big_top', 'no') != 'no' or o.get('sparse'):
+    if not inp['target'].startswith('fresh') or (inp['label'] and not LABEL_HISTORY) or o.get('big_top', 'no') != 'no' or o.get('sparse'):
         return None
     files = inp['ds']['files']
     st = [int(x) for x in files['spike_templates.npy']['data']]
